@@ -263,7 +263,11 @@ func (e *Exec) frameCheck(fr *frame, st *State, heap, ref string, pos token.Pos)
 // inFrame: the object was allocated by this call, or the location is listed.
 func (e *Exec) inFrame(heap, ref string) string {
 	alts := []string{le(e.nextRef0, app("root", ref)), eq(ref, "0")}
-	for _, m := range e.modset[heap] {
+	ms := e.modset[heap]
+	if heap != "*" {
+		ms = append(append([]modLoc{}, ms...), e.modset["*"]...)
+	}
+	for _, m := range ms {
 		if m.all {
 			alts = append(alts, m.cond)
 		} else if m.pred != nil {
